@@ -10,21 +10,214 @@ structure Sym.WF (y : Sym) : Prop where
   h90 : y.d90 = true → y.d180 = true ∧ y.V % 4 = 0
   h180 : y.d180 = true → y.V % 2 = 0
 
+/-! ### helper lemmas -/
+
+theorem sym_tmod_small {a b : Int} (h0 : 0 ≤ a) (h1 : a < b) : a.tmod b = a := by
+  rw [Int.tmod_eq_emod_of_nonneg h0, Int.emod_eq_of_lt h0 h1]
+
+theorem sym_tmod_add_self {a b : Int} (h0 : 0 ≤ a) (h1 : a < b) : (a + b).tmod b = a := by
+  rw [Int.tmod_eq_emod_of_nonneg (by omega), Int.add_emod_right, Int.emod_eq_of_lt h0 h1]
+
+/-- `findBasic` with the tuple pattern-match removed -/
+theorem findBasic_eq (y : Sym) (p : VS) :
+    findBasic y p =
+      (if y.d90 then
+        if p.view ≥ y.V / 2 + y.V / 2 / 2 then (⟨y.V - p.view, if y.swapSeg && p.seg < 0 then -p.seg else p.seg⟩, true)
+        else if p.view ≥ y.V / 2 then (⟨p.view - y.V / 2, if y.swapSeg && p.seg < 0 then -p.seg else p.seg⟩, true)
+        else if p.view > y.V / 2 / 2 then (⟨y.V / 2 - p.view, if y.swapSeg && p.seg < 0 then -p.seg else p.seg⟩, true)
+        else (⟨p.view, if y.swapSeg && p.seg < 0 then -p.seg else p.seg⟩, y.swapSeg && p.seg < 0)
+      else if y.d180 then
+        if p.view > y.V / 2 then (⟨y.V - p.view, if y.swapSeg && p.seg < 0 then -p.seg else p.seg⟩, true)
+        else (⟨p.view, if y.swapSeg && p.seg < 0 then -p.seg else p.seg⟩, y.swapSeg && p.seg < 0)
+      else (⟨p.view, if y.swapSeg && p.seg < 0 then -p.seg else p.seg⟩, y.swapSeg && p.seg < 0)) := by
+  unfold findBasic
+  by_cases hc : (y.swapSeg && decide (p.seg < 0)) = true
+  · simp only [hc, if_true]
+  · simp only [hc]; simp
+
+def relBoth (sw : Bool) (s v : Int) : List VS :=
+  if sw = true ∧ s ≠ 0 then [⟨v, s⟩, ⟨v, -s⟩] else [⟨v, s⟩]
+
+def relatedSpec (y : Sym) (b : VS) : List VS :=
+  relBoth y.swapSeg b.seg b.view
+  ++ (if y.d90 = true ∧ b.view ≠ y.V / 4 then relBoth y.swapSeg b.seg (b.view + y.V / 2) else [])
+  ++ (if y.d180 = true ∧ b.view ≠ 0 ∧ b.view ≠ y.V / 2 then relBoth y.swapSeg b.seg (y.V - b.view) else [])
+  ++ (if y.d90 = true ∧ b.view ≠ 0 ∧ b.view ≠ y.V / 4 then relBoth y.swapSeg b.seg (y.V / 2 - b.view) else [])
+
+/-- what `isBasic` means for an in-range view -/
+theorem isBasic_iff (y : Sym) (p : VS) :
+    isBasic y p = true ↔
+      ¬ (y.swapSeg = true ∧ p.seg < 0) ∧
+      (y.d90 = true → p.view ≤ y.V / 2 / 2 ∧ p.view < y.V / 2 ∧ p.view < y.V / 2 + y.V / 2 / 2) ∧
+      (y.d90 = false → y.d180 = true → p.view ≤ y.V / 2) := by
+  unfold isBasic
+  rw [findBasic_eq]
+  cases y.d90 <;> cases y.d180 <;> cases y.swapSeg <;> simp
+  all_goals repeat' split
+  all_goals simp
+  all_goals omega
+
+theorem related_eq_spec (y : Sym) (h : y.WF) (b : VS) (hb : isBasic y b = true)
+    (hv : 0 ≤ b.view ∧ b.view < y.V) : related y b = relatedSpec y b := by
+  obtain ⟨V, d90, d180, sw⟩ := y
+  obtain ⟨v, s⟩ := b
+  obtain ⟨hV, h90, h180⟩ := h
+  rw [isBasic_iff] at hb
+  simp only at hV h90 h180 hb hv
+  have e2 : V.tdiv 2 = V / 2 := Int.tdiv_eq_ediv_of_nonneg (by omega)
+  have e4 : V.tdiv 4 = V / 4 := Int.tdiv_eq_ediv_of_nonneg (by omega)
+  unfold related relatedSpec relBoth
+  simp only [e2, e4]
+  cases d90
+  · cases d180
+    · simp
+    · have hh := h180 rfl
+      have hle := hb.2.2 rfl rfl
+      by_cases hvh : v = V / 2
+      · simp [hvh]
+      · have t : v.tmod (V / 2) = v := sym_tmod_small hv.1 (by omega)
+        simp [t, hvh]
+  · obtain ⟨rfl, hq⟩ := h90 rfl
+    obtain ⟨h1, h2, h3⟩ := hb.2.1 rfl
+    have t1 : v.tmod (V / 2) = v := sym_tmod_small hv.1 h2
+    have t3 : (V / 2 - v + V).tmod V = V / 2 - v := sym_tmod_add_self (by omega) (by omega)
+    have n2 : ¬ v = V / 2 := by omega
+    by_cases hvq : v = V / 4
+    · have t2 : v.tmod (V / 4) = 0 := by rw [hvq]; exact Int.tmod_self
+      have n0 : ¬ v = 0 := by omega
+      simp only [t1, t2, t3, h2, if_true]
+      simp only [← hvq]
+      simp [n0, n2]
+    · have t2 : v.tmod (V / 4) = v := sym_tmod_small hv.1 (by omega)
+      simp only [t1, t2, t3, h2, if_true]
+      simp [hvq, n2]
+
+theorem numRelated_eq_spec (y : Sym) (h : y.WF) (b : VS) (hb : isBasic y b = true)
+    (hv : 0 ≤ b.view ∧ b.view < y.V) :
+    numRelated y b =
+      (if y.d180 = true ∧ b.view ≠ 0 ∧ b.view ≠ y.V / 2 then 2 else 1) *
+      (if y.d90 = true ∧ b.view ≠ y.V / 4 then 2 else 1) *
+      (if y.swapSeg = true ∧ b.seg ≠ 0 then 2 else 1) := by
+  obtain ⟨V, d90, d180, sw⟩ := y
+  obtain ⟨v, s⟩ := b
+  obtain ⟨hV, h90, h180⟩ := h
+  rw [isBasic_iff] at hb
+  simp only at hV h90 h180 hb hv
+  have e2 : V.tdiv 2 = V / 2 := Int.tdiv_eq_ediv_of_nonneg (by omega)
+  have e4 : V.tdiv 4 = V / 4 := Int.tdiv_eq_ediv_of_nonneg (by omega)
+  unfold numRelated
+  simp only [e2, e4]
+  cases d90
+  · cases d180
+    · simp
+    · have hh := h180 rfl
+      have hle := hb.2.2 rfl rfl
+      by_cases hvh : v = V / 2
+      · simp [hvh]
+      · have t : v.tmod (V / 2) = v := sym_tmod_small hv.1 (by omega)
+        simp [t, hvh]
+        repeat' split
+        all_goals rfl
+  · obtain ⟨rfl, hq⟩ := h90 rfl
+    obtain ⟨h1, h2, h3⟩ := hb.2.1 rfl
+    have t1 : v.tmod (V / 2) = v := sym_tmod_small hv.1 h2
+    have n2 : ¬ v = V / 2 := by omega
+    simp [t1, n2]
+    repeat' split
+    all_goals rfl
+
+theorem mem_relBoth (sw : Bool) (s v : Int) (w : VS) :
+    w ∈ relBoth sw s v ↔ w.view = v ∧ (w.seg = s ∨ (sw = true ∧ s ≠ 0 ∧ w.seg = -s)) := by
+  obtain ⟨wv, ws⟩ := w
+  unfold relBoth
+  split <;> simp_all <;> omega
+
+theorem mem_relatedSpec (y : Sym) (b w : VS) :
+    w ∈ relatedSpec y b ↔
+      (w.seg = b.seg ∨ (y.swapSeg = true ∧ b.seg ≠ 0 ∧ w.seg = -b.seg)) ∧
+      (w.view = b.view ∨ (y.d90 = true ∧ b.view ≠ y.V / 4 ∧ w.view = b.view + y.V / 2) ∨
+        (y.d180 = true ∧ b.view ≠ 0 ∧ b.view ≠ y.V / 2 ∧ w.view = y.V - b.view) ∨
+        (y.d90 = true ∧ b.view ≠ 0 ∧ b.view ≠ y.V / 4 ∧ w.view = y.V / 2 - b.view)) := by
+  simp only [relatedSpec, List.mem_append]
+  by_cases c1 : y.d90 = true ∧ b.view ≠ y.V / 4 <;>
+    by_cases c2 : y.d180 = true ∧ b.view ≠ 0 ∧ b.view ≠ y.V / 2 <;>
+    by_cases c3 : y.d90 = true ∧ b.view ≠ 0 ∧ b.view ≠ y.V / 4 <;>
+    (first | simp only [if_pos c1] | simp only [if_neg c1]) <;>
+    (first | simp only [if_pos c2] | simp only [if_neg c2]) <;>
+    (first | simp only [if_pos c3] | simp only [if_neg c3]) <;>
+    simp only [mem_relBoth, List.not_mem_nil, or_false] <;> grind
+
+theorem findBasic_basic (y : Sym) (h : y.WF) (p : VS) (hv : 0 ≤ p.view ∧ p.view < y.V) :
+    isBasic y (findBasic y p).1 = true ∧
+      0 ≤ (findBasic y p).1.view ∧ (findBasic y p).1.view < y.V := by
+  rw [isBasic_iff, findBasic_eq]
+  obtain ⟨V, d90, d180, sw⟩ := y
+  obtain ⟨v, s⟩ := p
+  obtain ⟨hV, h90, h180⟩ := h
+  simp only at hV h90 h180 hv ⊢
+  cases d90 <;> cases d180 <;> cases sw <;> simp at *
+  all_goals repeat' split
+  all_goals (try simp)
+  all_goals omega
+
+/-! ### the fixed statements -/
+
 theorem effective_WF (V : Int) (hV : 0 < V) (a b c d : Bool) : (Sym.effective V a b c d).WF := by
-  sorry
+  have e4 : V.tmod 4 = V % 4 := Int.tmod_eq_emod_of_nonneg (by omega)
+  have e2 : V.tmod 2 = V % 2 := Int.tmod_eq_emod_of_nonneg (by omega)
+  refine ⟨hV, ?_, ?_⟩ <;> simp only [Sym.effective, e4, e2] <;> cases a <;> cases b <;> cases d <;> simp <;> omega
 
 theorem mem_related_of_findBasic (y : Sym) (h : y.WF) (p : VS) (hv : 0 ≤ p.view ∧ p.view < y.V) :
     p ∈ related y (findBasic y p).1 ∧ isBasic y (findBasic y p).1 = true ∧
       0 ≤ (findBasic y p).1.view ∧ (findBasic y p).1.view < y.V := by
-  sorry
+  have key := findBasic_basic y h p hv
+  refine ⟨?_, key⟩
+  rw [related_eq_spec y h _ key.1 key.2, mem_relatedSpec, findBasic_eq]
+  obtain ⟨V, d90, d180, sw⟩ := y
+  obtain ⟨v, s⟩ := p
+  obtain ⟨hV, h90, h180⟩ := h
+  clear key
+  simp only at hV h90 h180 hv ⊢
+  cases d90 <;> cases d180 <;> cases sw <;> simp at *
+  all_goals repeat' split
+  all_goals (try simp)
+  all_goals omega
 
 theorem findBasic_of_mem_related (y : Sym) (h : y.WF) (b : VS) (hb : isBasic y b = true)
     (hv : 0 ≤ b.view ∧ b.view < y.V) (w : VS) (hw : w ∈ related y b) :
     (findBasic y w).1 = b ∧ 0 ≤ w.view ∧ w.view < y.V ∧ (w.seg = b.seg ∨ (y.swapSeg = true ∧ w.seg = -b.seg)) := by
-  sorry
+  rw [related_eq_spec y h b hb hv, mem_relatedSpec] at hw
+  obtain ⟨V, d90, d180, sw⟩ := y
+  obtain ⟨v, s⟩ := b
+  obtain ⟨wv, ws⟩ := w
+  obtain ⟨hV, h90, h180⟩ := h
+  rw [isBasic_iff] at hb
+  obtain ⟨hb1, hb2, hb3⟩ := hb
+  obtain ⟨hw1, hw2⟩ := hw
+  rw [findBasic_eq]
+  simp only at hV h90 h180 hb1 hb2 hb3 hv hw1 hw2 ⊢
+  cases d90 <;> cases d180 <;> cases sw <;> simp at *
+  all_goals repeat' split
+  all_goals (try simp)
+  all_goals omega
 
 theorem related_nodup (y : Sym) (h : y.WF) (b : VS) (hb : isBasic y b = true)
     (hv : 0 ≤ b.view ∧ b.view < y.V) : (related y b).Nodup ∧ numRelated y b = (related y b).length := by
-  sorry
+  rw [related_eq_spec y h b hb hv, numRelated_eq_spec y h b hb hv]
+  obtain ⟨V, d90, d180, sw⟩ := y
+  obtain ⟨v, s⟩ := b
+  obtain ⟨hV, h90, h180⟩ := h
+  rw [isBasic_iff] at hb
+  obtain ⟨hb1, hb2, hb3⟩ := hb
+  simp only at hV h90 h180 hb1 hb2 hb3 hv
+  simp only [relatedSpec, relBoth]
+  by_cases hs : sw = true ∧ s ≠ 0 <;> by_cases c1 : d90 = true ∧ v ≠ V / 4 <;>
+    by_cases c2 : d180 = true ∧ v ≠ 0 ∧ v ≠ V / 2 <;> by_cases c3 : d90 = true ∧ v ≠ 0 ∧ v ≠ V / 4 <;>
+    (first | simp only [if_pos hs] | simp only [if_neg hs]) <;>
+    (first | simp only [if_pos c1] | simp only [if_neg c1]) <;>
+    (first | simp only [if_pos c2] | simp only [if_neg c2]) <;>
+    (first | simp only [if_pos c3] | simp only [if_neg c3]) <;>
+    simp
+  all_goals (cases d90 <;> cases d180 <;> simp at * <;> omega)
 
 end StirVerif.C06
